@@ -153,6 +153,18 @@ class BlobWorld:
         self._with_other(other)
         return 'consume:' + name
 
+    def consume_fail(self, i, other):
+        """consumeFile() of a file that does not exist fails: the blob keeps whatever it held in this transaction."""
+        name = self._pick(i)
+        if name is None:
+            return None
+        try:
+            self.root[name].consumeFile(os.path.join(self.dir, 'no-such-file'))
+            fail('consumeFile of a missing file succeeded')
+        except OSError:
+            pass
+        return 'consume_fail:' + name
+
     def savepoint(self):
         sp = self.tm.savepoint()
         self.sps.append((sp, dict(self.work), set(self.touched)))
@@ -227,7 +239,7 @@ class BlobWorld:
 
     def faulty_commit(self, f):
         """Commit during which the f-th file-system operation in the blob code fails."""
-        inj = _Injector(f)
+        inj = _Injector(f, self.s)
         inj.install()
         try:
             try:
@@ -259,7 +271,7 @@ class BlobWorld:
         fails with a ConflictError: nothing of our transaction remains, the other one's bytes are the state."""
         from ZODB.POSException import ConflictError
         name = self._pick(i)
-        if name is None or name not in self.committed or self.sps:
+        if name is None or name not in self.committed:
             return None
         if name not in self.touched:
             self.rewrite(i, False)
@@ -510,8 +522,9 @@ class _Injector:
     """Make the f-th file-system operation of the blob code fail (OSError)."""
     NAMES = ['rename', 'remove', 'link', 'makedirs', 'chmod']
 
-    def __init__(self, f):
+    def __init__(self, f, storage=None):
         self.f = f
+        self.storage = storage
         self.n = 0
         self.fired = None
         self.fired_at = None
@@ -559,6 +572,22 @@ class _Injector:
             return real_cp(f1, f2, length, bufsize)
         self.saved.append((U, 'cp', U.cp))
         U.cp = partial_cp
+        # the storage refusing a record for a reason other than a conflict (quota, read-only medium, ...)
+        if self.storage is not None:
+            target = getattr(self.storage, '_BlobStorage__storage', self.storage)
+            real_store = target.store
+
+            def store(*a, **k):
+                i = self.n
+                self.n += 1
+                if self.fired is None and i == self.f:
+                    self.fired = 'store'
+                    self.fired_at = i
+                    from ZODB.POSException import StorageError
+                    raise StorageError('injected refusal of a store')
+                return real_store(*a, **k)
+            target.store = store
+            self.unstore = target
         if getattr(F, 'cp', None) is real_cp:
             self.saved.append((F, 'cp', F.cp))
             F.cp = partial_cp
@@ -566,10 +595,13 @@ class _Injector:
     def uninstall(self):
         for mod, name, real in self.saved:
             setattr(mod, name, real)
+        if getattr(self, 'unstore', None) is not None:
+            del self.unstore.store              # back to the class's method
+            self.unstore = None
 
 
 CODES = ['new', 'rewrite0', 'append0', 'consume0', 'rewrite1', 'savepoint', 'rollback', 'commit', 'abort',
-         'fail_commit>', 'fail_vote>', 'fail_vote<', 'undo', 'pack', 'pack_mid', 'conflict0']
+         'fail_commit>', 'fail_vote>', 'fail_vote<', 'undo', 'pack', 'pack_mid', 'conflict0', 'consumefail0']
 
 
 def _step(w, code, other):
@@ -579,6 +611,8 @@ def _step(w, code, other):
         return w.rewrite(int(code[-1]), other)
     if code.startswith('append'):
         return w.append(int(code[-1]), other)
+    if code.startswith('consumefail'):
+        return w.consume_fail(int(code[-1]), other)
     if code.startswith('consume'):
         return w.consume(int(code[-1]), other)
     if code == 'savepoint':
@@ -667,7 +701,7 @@ def h_fault(c0: int, c1: int, f: int, kind: str, other: bool) -> None:
     reached()
 
 
-WRITES = ['nothing', 'rewrite0', 'append0', 'consume0', 'new']
+WRITES = ['nothing', 'rewrite0', 'append0', 'consume0', 'new', 'consumefail0']
 
 
 def h_directed_sp(a: int, b: int, c: int, extra_sp: bool, end_commit: bool, kind: str) -> None:
